@@ -260,7 +260,7 @@ func (oc *originCtx) resolveCall(fn *ssa.Function, c *ssa.Call, res originSet) {
 		}
 		return
 	}
-	if callee := c.Common().StaticCallee(); callee != nil && callee.Blocks != nil && callee.Pkg != nil && smPkgs[callee.Pkg.Pkg.Path()] && !oc.e.isGenerated(callee.Pos()) {
+	if callee := Devirt(c.Common()); callee != nil && callee.Blocks != nil && callee.Pkg != nil && smPkgs[callee.Pkg.Pkg.Path()] && !oc.e.isGenerated(callee.Pos()) {
 		if parseFns[key] {
 			oc.add(res, errOrigin{"PARSE", key, fn, c})
 			return
